@@ -496,6 +496,7 @@ type printer struct {
 	onlyBV bool
 	vars   []*Term
 	usorts []string
+	comm   []string // ground commutativity instances of uninterpreted field products (int mode)
 }
 
 func newPrinter(ring bool) *printer {
@@ -647,11 +648,22 @@ func (p *printer) smt(t *Term, pos bool) string {
 		}
 		var sb strings.Builder
 		sb.WriteString("(" + op)
+		var as []string
 		for _, a := range t.args {
 			sb.WriteByte(' ')
-			sb.WriteString(p.smt(a, true))
+			as = append(as, p.smt(a, true))
+			sb.WriteString(as[len(as)-1])
 		}
 		sb.WriteByte(')')
+		if !p.ring && t.op == "fmul" && len(as) == 2 && as[0] != as[1] {
+			// the field product is commutative: one ground instance per product printed (no reordering of
+			// arguments, see FOp), so that code may commute the operands of a multiplication
+			k := "comm:" + op + " " + as[0] + " " + as[1]
+			if !p.seen[k] && !p.seen["comm:"+op+" "+as[1]+" "+as[0]] {
+				p.seen[k] = true
+				p.comm = append(p.comm, fmt.Sprintf("(assert (= (%s %s %s) (%s %s %s)))", op, as[0], as[1], op, as[1], as[0]))
+			}
+		}
 		return sb.String()
 	}
 	op := t.op
@@ -716,6 +728,9 @@ func BuildScript(hyps []*Term, goal *Term, rawAxioms []string, getVars []*Term, 
 	}
 	if goal != nil {
 		fmt.Fprintf(&body, "(assert (not %s))\n", p.smt(goal, true))
+	}
+	for _, c := range p.comm {
+		body.WriteString(c + "\n")
 	}
 	body.WriteString("(check-sat)\n")
 	gv := getVars
